@@ -451,9 +451,13 @@ class C14:
                                                           want.shape),
                 sig='C14.derived:shape'))
             return
+        drawn = [abs(float(np.max(np.abs(c['out'])))) for c in calls
+                 if np.asarray(c['out']).size]
+        atol = 1e-12 * max([self._magnitude(t)] + [
+            d for d in drawn if np.isfinite(d)])
         with np.errstate(all='ignore'):
-            ok = np.isclose(garr, want, rtol=1e-12, atol=0, equal_nan=True) \
-                | (garr == want)
+            ok = np.isclose(garr, want, rtol=1e-12, atol=atol,
+                            equal_nan=True) | (garr == want)
         if not np.all(ok):
             ex.add(violation(
                 'C14.derived', ev['id'],
@@ -513,6 +517,22 @@ class C14:
             return float(val) if size is None else val
         args = [self._ref_sample(a, size, it) for a in t['args']]
         return apply_fn(t['fn'], args)
+
+    def _magnitude(self, t):
+        """Largest |leaf value| of an expression: cancellation in a
+        derived expression is judged relative to it."""
+        if 'num' in t:
+            return abs(t['num'])
+        if 'base' in t:
+            g = self._ref_guess(t)
+            return abs(g) if np.isfinite(g) else 0.0
+        with np.errstate(all='ignore'):
+            sub = [self._magnitude(a) for a in t['args']]
+            try:
+                own = abs(self._ref_guess(t))
+            except Exception:
+                own = 0.0
+        return max(sub + [own if np.isfinite(own) else 0.0])
 
     def _ref_guess(self, t):
         if 'num' in t:
@@ -611,8 +631,9 @@ class C14:
         g = g['v'] if isinstance(g, dict) and '__npscalar__' in g else g
         with np.errstate(all='ignore'):
             want = self._ref_guess(t)
-        same = (np.isclose(g, want, rtol=1e-12, atol=0, equal_nan=True) or
-                g == want)
+        atol = 1e-12 * self._magnitude(t)
+        same = (np.isclose(g, want, rtol=1e-12, atol=atol, equal_nan=True)
+                or g == want)
         if not same:
             ex.add(violation(
                 'C14.guess', ev['id'],
